@@ -174,8 +174,8 @@ def existence_check(C) -> None:
     M: Model = C.M
     rule = "C17.R4"
     first, naming = "existence check first", "raises naming the module"
-    if not M.A_names:
-        C.unsure(rule, first, "the alias mapping is not read from the options into a local (kwargs.pop('aliases') / kwargs['aliases'])")
+    if not M.alias_sources():
+        C.unsure(rule, first, "the alias mapping is not read from the options (kwargs.pop('aliases') / kwargs['aliases'] / kwargs.get('aliases'))")
         return
     findings = []  # (status, decision stmt, raise, detail)
     for r in _walk_own(M.fn.body):
@@ -200,7 +200,7 @@ def existence_check(C) -> None:
         if tgt is not None and cfg.dominates(decision, tgt):
             ok = True
         elif call is not None:
-            a_defs = [b.stmt for n in M.A_names for b in M.binds[n]]
+            a_defs = [M.stmt_of(x) for x in M.alias_sources()]
             ok = all(not cfg.paths_avoiding(s, M.stmt_of(call), {decision}) for s in a_defs)
         if ok:
             C.ok(rule, first, "aliases are validated before labels are handed to the backend", decision, kind="dominance")
